@@ -1627,6 +1627,15 @@ void sm2_z256_point_mul_generator(SM2_Z256_POINT *R, const sm2_z256_t k)
 				sm2_z256_point_copy_affine(R, &g_pre_comp[i][booth - 1]);
 				R_infinity = 0;
 			}
+		} else if (i == 0 && booth != 0) {
+			// only in the last window the partial sum can equal the table
+			// entry (k = n - 70), so use the complete addition here
+			SM2_Z256_POINT Q;
+			sm2_z256_point_copy_affine(&Q, &g_pre_comp[0][(booth > 0 ? booth : -booth) - 1]);
+			if (booth < 0) {
+				sm2_z256_point_neg(&Q, &Q);
+			}
+			sm2_z256_point_add(R, R, &Q);
 		} else {
 			if (booth > 0) {
 				sm2_z256_point_add_affine(R, R, &g_pre_comp[i][booth - 1]);
